@@ -1,6 +1,16 @@
 /-
 Contracts.V2000 — the V2000 connection-table reader (C08): fixed-column fields, atom-block charge codes,
 `M  CHG` / `M  RAD` / `M  ISO` property lines and their supersession semantics, D/T symbols.
+
+Specs (written from the format text): `field`/`fieldInt` (fixed columns, blank = 0), `propEntry`/`propEntries`
+(entries of a property line), `lineKind`, `scanProps`/`propLines` (the CHG/RAD/ISO lines up to `M  END`),
+`specGet` (value of every attribute of every atom after the property block), `renderProp`/`Item.render`
+(how a writer lays the lines out), `chargeOfCode`, `hydrogenIsotope`, `atomAttrs`, `bondLine`.
+Main theorems: `_to_int_blank`, `_to_int_ok`, `parseInt_pyStrInt`; `_parse_atom_value_assignments_eq/_ok/_reject`;
+`_merge_tuples_into_additional_attributes_eq/_ok`, `_clear_atom_attribute_ok/_get?`,
+`_merge_atom_attributes_and_additional_attributes_eq/_ok`; `_parse_attribute_block_eq/_ok/_reject`,
+`_parse_attribute_block_render_ok/_noEnd/_badAtom`, `specGet_mass/_chg/_rad/_other`; `_parse_atom_line_ok`,
+`_parse_bond_line_eq/_ok/_reject`; `graph_attributes_from_molfile_v2000_eq/_ok`.
 -/
 import Generated.V2000
 import Mathlib.Data.List.TakeWhile
@@ -9,6 +19,9 @@ open Py
 set_option autoImplicit false
 set_option linter.unusedSimpArgs false
 set_option linter.unusedSectionVars false
+set_option linter.unusedTactic false
+set_option linter.unreachableTactic false
+set_option linter.unnecessarySeqFocus false
 
 namespace Contracts.V2000
 
@@ -520,6 +533,40 @@ theorem clearAttr_get? (key : String) (atoms : Dict Int Attrs) (a : Int) :
 
 theorem clearAttr_wf (key : String) (atoms : Dict Int Attrs) (h : WF atoms) : WF (clearAttr key atoms) := by
   unfold WF at *; rw [clearAttr_keys]; exact h
+
+/-- **item 3a**: contract of `_merge_tuples_into_additional_attributes` at lookup level -/
+theorem _merge_tuples_into_additional_attributes_ok (env : DepEnv) (tuples : List (Int × Int)) (key : String)
+    (add : Dict Int Attrs) :
+    ∃ r, _merge_tuples_into_additional_attributes env tuples key add = .ok r ∧ (InnerWF add → InnerWF r) ∧
+      ∀ a k, dget r a k =
+        if k = key then ((lastWins tuples a).map Val.int).or (dget add a k) else dget add a k :=
+  ⟨mergeTuples key tuples add, _merge_tuples_into_additional_attributes_eq env tuples key add,
+    innerWF_mergeTuples key tuples add, dget_mergeTuples key tuples add⟩
+
+/-- **item 3b**: `_clear_atom_attribute` at lookup level: the key is gone from every atom, every other
+attribute of every atom is unchanged, the atoms and their order are unchanged -/
+theorem _clear_atom_attribute_get? (env : DepEnv) (key : String) (atoms : Dict Int Attrs) (hwf : WF atoms) :
+    ∃ r, _clear_atom_attribute env key atoms = .ok r ∧ r.keys = atoms.keys ∧
+      ∀ a old, atoms.get? a = some old →
+        ∃ new, r.get? a = some new ∧ ∀ k, new.get? k = if k = key then none else old.get? k := by
+  refine ⟨clearAttr key atoms, _clear_atom_attribute_ok env key atoms hwf, clearAttr_keys key atoms, ?_⟩
+  intro a old h
+  refine ⟨old.erase key, by rw [clearAttr_get?, h]; rfl, fun k => get?_erase old key k⟩
+
+/-- **item 3c**: contract of `_merge_atom_attributes_and_additional_attributes` at lookup level: zero values
+are dropped, non-zero values override, everything else is unchanged -/
+theorem _merge_atom_attributes_and_additional_attributes_ok (env : DepEnv) (atoms add : Dict Int Attrs)
+    (hwf : WF atoms) (hadd : InnerWF add) :
+    ∃ r, _merge_atom_attributes_and_additional_attributes env atoms add = .ok r ∧ r.keys = atoms.keys ∧
+      ∀ a old, atoms.get? a = some old →
+        ∃ new, r.get? a = some new ∧ ∀ k, new.get? k =
+          match dget add a k with
+          | some v => if v = Val.int 0 then old.get? k else some v
+          | none => old.get? k := by
+  refine ⟨mergeAdd atoms add, _merge_atom_attributes_and_additional_attributes_eq env atoms add hwf,
+    mergeAdd_keys atoms add, ?_⟩
+  intro a old h
+  exact ⟨mergeAtom add (a, old), by rw [mergeAdd_get?, h]; rfl, fun k => mergeAtom_get? add hadd a old k⟩
 
 /-! ### the fixed-column format of the property block (from the CTfile format text) -/
 
@@ -1272,7 +1319,7 @@ theorem scanProps_cons (atoms : Dict Int Attrs) (l : Str) (ls : List Str) :
         pure ((K, es) :: r.1, r.2)
       | none => if l = endLine then pure ([], true) else scanProps atoms ls) := by
   rw [scanProps]
-  cases lineKind l <;> rfl
+  all_goals (cases lineKind l <;> rfl)
 
 theorem scanProps_render (atoms : Dict Int Attrs) (items : List Item) (h : ∀ it ∈ items, it.Legal atoms)
     (rest : List Str) :
@@ -1357,4 +1404,491 @@ theorem _parse_attribute_block_render_badAtom (env : DepEnv) (atoms : Dict Int A
       .error (Err.custom "MolfileParserException") :=
   _parse_attribute_block_reject env _ atoms _ hwf (propLines_render_badAtom atoms items h K es hlen hfit hbad post)
 
+/-! ### item 5: atom lines and bond lines -/
+
+/-- value of a coordinate field: blank means (integer) 0, otherwise `float()` of the field -/
+def fieldFloat (env : DepEnv) (s : Str) : M Val :=
+  if s.all (· = ' ') then pure (Val.int 0) else do
+    let f ← env.parseFloat s
+    pure (Val.flt f)
+
+theorem _to_float_eq (env : DepEnv) (s : Str) : _to_float env s = fieldFloat env s := by
+  unfold _to_float fieldFloat
+  by_cases h : s.all (· = ' ') = true
+  · have := (stripChar_eq_nil s ' ').2 h
+    simp [truthy, this, h, toVal]
+  · have : stripChar s ' ' ≠ [] := fun e => h ((stripChar_eq_nil s ' ').1 e)
+    simp [truthy, this, h]
+    cases env.parseFloat s <;> rfl
+
+/-- D and T denote hydrogen-2 and hydrogen-3: (element symbol, isotope mass or 0) -/
+def hydrogenIsotope (sym : Str) : Str × Int :=
+  if sym = py!"D" then (py!"H", 2) else if sym = py!"T" then (py!"H", 3) else (sym, 0)
+
+theorem detect_hydrogen_isotopes_ok (env : DepEnv) (sym : Str) :
+    Tucan.element_attributes.detect_hydrogen_isotopes env sym = .ok (hydrogenIsotope sym) := by
+  unfold Tucan.element_attributes.detect_hydrogen_isotopes hydrogenIsotope
+  simp only [Py.pure_eq_ok, pyEq, PyCmp.eq, decide_eq_true_eq]
+  split_ifs <;> rfl
+
+/-- the charge code `ccc` of the atom block -/
+def chargeOfCode (c : Int) : List (String × Val) :=
+  if c = 1 then [("chg", Val.int 3)]
+  else if c = 2 then [("chg", Val.int 2)]
+  else if c = 3 then [("chg", Val.int 1)]
+  else if c = 4 then [("rad", Val.int 2)]
+  else if c = 5 then [("chg", Val.int (-1))]
+  else if c = 6 then [("chg", Val.int (-2))]
+  else if c = 7 then [("chg", Val.int (-3))]
+  else []
+
+/-- the attributes of an atom read from an atom line -/
+def atomAttrs (sym : Str) (z fx fy fz : Val) (c m : Int) : Attrs :=
+  ⟨[("element_symbol", Val.str sym), ("atomic_number", z), ("partition", Val.int 0),
+    ("x_coord", fx), ("y_coord", fy), ("z_coord", fz)]
+    ++ chargeOfCode c ++ (if m = 0 then [] else [("mass", Val.int m)])⟩
+
+theorem charges_getD (c : Int) :
+    Tucan.Consts.MOLFILE_V2000_CHARGES.getD c Dict.empty = ⟨chargeOfCode c⟩ := by
+  unfold chargeOfCode
+  split_ifs with h1 h2 h3 h4 h5 h6 h7
+  all_goals (try subst_vars)
+  all_goals (try rfl)
+  have e1 : (c == 1) = false := by simpa using h1
+  have e2 : (c == 2) = false := by simpa using h2
+  have e3 : (c == 3) = false := by simpa using h3
+  have e4 : (c == 4) = false := by simpa using h4
+  have e5 : (c == 5) = false := by simpa using h5
+  have e6 : (c == 6) = false := by simpa using h6
+  have e7 : (c == 7) = false := by simpa using h7
+  simp only [Tucan.Consts.MOLFILE_V2000_CHARGES, Dict.getD, Dict.get?, List.lookup, e1, e2, e3, e4, e5, e6, e7]
+  rfl
+
+
+theorem chargeOfCode_cases (c : Int) :
+    chargeOfCode c = [] ∨ ∃ v, chargeOfCode c = [("chg", v)] ∨ chargeOfCode c = [("rad", v)] := by
+  unfold chargeOfCode
+  split_ifs
+  all_goals first | exact Or.inl rfl | exact Or.inr ⟨_, Or.inl rfl⟩ | exact Or.inr ⟨_, Or.inr rfl⟩
+
+theorem getItem_elem (d : Dict Str Attrs) (k : Str) (v : Attrs) (h : d.get? k = some v) :
+    (getItem d k : M Attrs) = .ok v := by
+  simp only [getItem, toKey, id_eq, h]; rfl
+
+theorem getItem_attr (d : Attrs) (k : String) (v : Val) (h : d.get? k = some v) :
+    (getItem d k : M Val) = .ok v := by
+  simp only [getItem, toKey, id_eq, h]; rfl
+
+/-- **item 5a**: an atom line, read by columns: coordinates 0–29, symbol 31–33, charge code 36–38 -/
+theorem _parse_atom_line_ok (env : DepEnv) (line sym : Str) (ea : Attrs) (z fx fy fz : Val) (c : Int)
+    (hsym : stripChar (field line 31 3) ' ' = sym)
+    (hea : Tucan.Consts.ELEMENT_ATTRS.get? (hydrogenIsotope sym).1 = some ea)
+    (hz : ea.get? "atomic_number" = some z)
+    (hx : fieldFloat env (field line 0 10) = .ok fx)
+    (hy : fieldFloat env (field line 10 10) = .ok fy)
+    (hzc : fieldFloat env (field line 20 10) = .ok fz)
+    (hc : fieldInt (field line 36 3) = .ok c) :
+    _parse_atom_line env line =
+      .ok (atomAttrs (hydrogenIsotope sym).1 z fx fy fz c (hydrogenIsotope sym).2) := by
+  unfold _parse_atom_line
+  simp only [Py.pure_eq_ok, Py.ok_bind, _to_int_eq, _to_float_eq, detect_hydrogen_isotopes_ok]
+  rw [slice_eq_field line 31 34 31 3 rfl rfl, slice_eq_field line 0 10 0 10 rfl rfl,
+    slice_eq_field line 10 20 10 10 rfl rfl, slice_eq_field line 20 30 20 10 rfl rfl,
+    slice_eq_field line 36 39 36 3 rfl rfl]
+  simp only [field] at hsym hx hy hzc hc
+  rw [hsym, getItem_elem _ _ _ hea]
+  simp only [Py.ok_bind, getItem_attr _ _ _ hz, hx, hy, hzc, hc, charges_getD, setItem_attrs, toVal]
+  unfold atomAttrs
+  by_cases hm : (hydrogenIsotope sym).2 = 0
+  · rcases chargeOfCode_cases c with h0 | ⟨v, h1 | h1⟩
+    · simp [truthy, hm, h0, Dict.ofPairs, Dict.update, Dict.set, Dict.contains, Dict.get?, Dict.empty]
+    · simp [truthy, hm, h1, Dict.ofPairs, Dict.update, Dict.set, Dict.contains, Dict.get?, Dict.empty]
+    · simp [truthy, hm, h1, Dict.ofPairs, Dict.update, Dict.set, Dict.contains, Dict.get?, Dict.empty]
+  · rcases chargeOfCode_cases c with h0 | ⟨v, h1 | h1⟩
+    · simp [truthy, hm, h0, Dict.ofPairs, Dict.update, Dict.set, Dict.contains, Dict.get?, Dict.empty]
+    · simp [truthy, hm, h1, Dict.ofPairs, Dict.update, Dict.set, Dict.contains, Dict.get?, Dict.empty]
+    · simp [truthy, hm, h1, Dict.ofPairs, Dict.update, Dict.set, Dict.contains, Dict.get?, Dict.empty]
+
+
+/-- a bond line `111222ttt…` read by columns: both atom numbers must denote atoms -/
+def bondLine (atoms : Dict Int Attrs) (line : Str) : M ((Int × Int) × Attrs) := do
+  let a ← fieldInt (field line 0 3)
+  let b ← fieldInt (field line 3 3)
+  if atoms.contains (a - 1) && atoms.contains (b - 1) then do
+    let t ← fieldInt (field line 6 3)
+    pure ((a - 1, b - 1), ⟨[("bond_type", Val.int t)]⟩)
+  else throw parserException
+
+/-- **item 5b** (general form, including the rejecting path) -/
+theorem _parse_bond_line_eq (env : DepEnv) (line : Str) (atoms : Dict Int Attrs) :
+    _parse_bond_line env line atoms = bondLine atoms line := by
+  unfold _parse_bond_line bondLine
+  simp only [Py.pure_eq_ok, Py.ok_bind, _to_int_eq, _validate_atom_index, pyContains_dict]
+  rw [slice_eq_field line 0 3 0 3 rfl rfl, slice_eq_field line 3 6 3 3 rfl rfl,
+    slice_eq_field line 6 9 6 3 rfl rfl]
+  simp only [field]
+  cases fieldInt (List.take 3 (List.drop 0 line)) with
+  | error e => rfl
+  | ok a =>
+    cases fieldInt (List.take 3 (List.drop 3 line)) with
+    | error e => rfl
+    | ok b =>
+      simp only [Py.ok_bind]
+      by_cases h1 : atoms.contains (a - 1) = true <;> by_cases h2 : atoms.contains (b - 1) = true <;>
+        simp [h1, h2, parserException] <;> cases fieldInt (List.take 3 (List.drop 6 line)) <;> rfl
+
+/-- **item 5b**: a bond line as the format renders it -/
+theorem _parse_bond_line_ok (env : DepEnv) (atoms : Dict Int Attrs) (a b t : Nat) (rest : Str)
+    (ha : a ≤ 999) (hb : b ≤ 999) (ht : t ≤ 999)
+    (hca : atoms.contains ((a : Int) - 1) = true) (hcb : atoms.contains ((b : Int) - 1) = true) :
+    _parse_bond_line env (fmt3 a ++ fmt3 b ++ fmt3 t ++ rest) atoms =
+      .ok (((a : Int) - 1, (b : Int) - 1), ⟨[("bond_type", Val.int t)]⟩) := by
+  have la := length_fmt3 a (by omega) (by omega)
+  have lb := length_fmt3 b (by omega) (by omega)
+  have lt := length_fmt3 t (by omega) (by omega)
+  have f0 : field (fmt3 a ++ fmt3 b ++ fmt3 t ++ rest) 0 3 = fmt3 a := by
+    simp only [field, List.drop_zero, List.append_assoc]; exact List.take_left' la
+  have f3 : field (fmt3 a ++ fmt3 b ++ fmt3 t ++ rest) 3 3 = fmt3 b := by
+    simp only [field, List.append_assoc]
+    rw [List.drop_left' la]; exact List.take_left' lb
+  have f6 : field (fmt3 a ++ fmt3 b ++ fmt3 t ++ rest) 6 3 = fmt3 t := by
+    simp only [field]
+    rw [List.append_assoc, List.drop_left' (by rw [List.length_append, la, lb])]; exact List.take_left' lt
+  rw [_parse_bond_line_eq]
+  unfold bondLine
+  rw [f0, f3, f6, fieldInt_fmt3 _ (by omega) (by omega), fieldInt_fmt3 _ (by omega) (by omega),
+    fieldInt_fmt3 _ (by omega) (by omega)]
+  simp [hca, hcb]
+
+theorem _parse_bond_line_reject (env : DepEnv) (atoms : Dict Int Attrs) (a b : Nat) (rest : Str)
+    (ha : a ≤ 999) (hb : b ≤ 999)
+    (hbad : atoms.contains ((a : Int) - 1) = false ∨ atoms.contains ((b : Int) - 1) = false) :
+    _parse_bond_line env (fmt3 a ++ fmt3 b ++ rest) atoms = .error (Err.custom "MolfileParserException") := by
+  have la := length_fmt3 a (by omega) (by omega)
+  have lb := length_fmt3 b (by omega) (by omega)
+  have f0 : field (fmt3 a ++ fmt3 b ++ rest) 0 3 = fmt3 a := by
+    simp only [field, List.drop_zero, List.append_assoc]; exact List.take_left' la
+  have f3 : field (fmt3 a ++ fmt3 b ++ rest) 3 3 = fmt3 b := by
+    simp only [field, List.append_assoc]
+    rw [List.drop_left' la]; exact List.take_left' lb
+  rw [_parse_bond_line_eq]
+  unfold bondLine
+  rw [f0, f3, fieldInt_fmt3 _ (by omega) (by omega), fieldInt_fmt3 _ (by omega) (by omega)]
+  rcases hbad with h | h <;> simp [h, parserException]
+
+/-! ### composition: `graph_attributes_from_molfile_v2000` -/
+
+theorem enumerate_nil {α : Type} (s : Int) : enumerate ([] : List α) s = [] := rfl
+
+theorem enumerate_cons {α : Type} (x : α) (xs : List α) (s : Int) :
+    enumerate (x :: xs) s = (s, x) :: enumerate xs (s + 1) := by
+  unfold enumerate
+  simp only [List.length_cons, List.range_succ_eq_map, List.map_cons, List.map_map, List.zip_cons_cons]
+  congr 1
+  · simp
+  · congr 1
+    apply List.map_congr_left
+    intro i _
+    simp only [Function.comp, Int.ofNat_eq_natCast]
+    push_cast; ring
+
+theorem lookup_enumerate {α : Type} (l : List α) (s i : Int) :
+    (enumerate l s).lookup i = if s ≤ i then l[(i - s).toNat]? else none := by
+  induction l generalizing s with
+  | nil => simp [enumerate_nil]
+  | cons x xs ih =>
+    rw [enumerate_cons, List.lookup_cons]
+    by_cases h : i = s
+    · subst h; simp
+    · have : (i == s) = false := by simpa using h
+      rw [this, ih]
+      by_cases h2 : s ≤ i
+      · have h3 : s + 1 ≤ i := by omega
+        have h4 : (i - s).toNat = (i - (s + 1)).toNat + 1 := by omega
+        simp [h2, h3, h4]
+      · have h3 : ¬ s + 1 ≤ i := by omega
+        simp [h2, h3]
+
+theorem keys_enumerate {α : Type} (l : List α) (s : Int) :
+    (enumerate l s).map Prod.fst = (List.range l.length).map (fun i : Nat => s + Int.ofNat i) := by
+  unfold enumerate
+  rw [List.map_fst_zip (by simp)]
+
+theorem nodup_keys_enumerate {α : Type} (l : List α) (s : Int) : ((enumerate l s).map Prod.fst).Nodup := by
+  rw [keys_enumerate]
+  apply List.Nodup.map _ List.nodup_range
+  intro a b h; simpa using h
+
+theorem updatePairs_eq_append {κ ν : Type} [DecidableEq κ] (l : List (κ × ν)) (d : Dict κ ν)
+    (h : (d.keys ++ l.map Prod.fst).Nodup) : d.updatePairs l = ⟨d.items ++ l⟩ := by
+  induction l generalizing d with
+  | nil => simp [Dict.updatePairs]
+  | cons p l ih =>
+    have hp : d.contains p.1 = false := by
+      rw [← Bool.not_eq_true, contains_iff_mem_keys]
+      intro hm
+      exact (List.nodup_append.1 h).2.2 p.1 hm p.1 (by simp) rfl
+    have hs : d.set p.1 p.2 = ⟨d.items ++ [p]⟩ := by simp [Dict.set, hp]
+    show (d.set p.1 p.2).updatePairs l = _
+    rw [hs, ih]
+    · simp
+    · simpa [Dict.keys, List.map_append] using h
+
+theorem ofPairs_eq {κ ν : Type} [DecidableEq κ] (l : List (κ × ν)) (h : (l.map Prod.fst).Nodup) :
+    Dict.ofPairs l = ⟨l⟩ := by
+  have := updatePairs_eq_append l (Dict.empty : Dict κ ν) (by simpa [Dict.keys, Dict.empty] using h)
+  simp only [Dict.empty, List.nil_append] at this
+  exact this
+
+/-- the atom dict built from the atom block: atom `i` (0-based) ↦ its attributes -/
+def atomDict (attrs : List Attrs) : Dict Int Attrs := ⟨enumerate attrs 0⟩
+
+theorem atomDict_wf (attrs : List Attrs) : WF (atomDict attrs) := nodup_keys_enumerate attrs 0
+
+theorem atomDict_get? (attrs : List Attrs) (i : Int) :
+    (atomDict attrs).get? i = if 0 ≤ i then attrs[i.toNat]? else none := by
+  unfold atomDict Dict.get?
+  rw [lookup_enumerate]; simp
+
+theorem atomDict_contains (attrs : List Attrs) (i : Int) :
+    (atomDict attrs).contains i = decide (0 ≤ i ∧ i < attrs.length) := by
+  rw [contains_eq_isSome, atomDict_get?]
+  by_cases h : 0 ≤ i
+  · simp only [h, if_true, true_and]
+    by_cases h2 : i < attrs.length
+    · have : i.toNat < attrs.length := by omega
+      simp [h2, this]
+    · have : attrs.length ≤ i.toNat := by omega
+      simp [h2, this]
+  · simp [h]
+
+theorem atomDict_keys (attrs : List Attrs) : (atomDict attrs).keys = Py.range attrs.length := by
+  unfold atomDict Dict.keys
+  rw [keys_enumerate]
+  simp only [Py.range, Int.toNat_natCast]
+  apply List.map_congr_left
+  intro i _; simp
+
+theorem _parse_atom_block_ok (env : DepEnv) (lines : List Str) (attrs : List Attrs)
+    (h : List.Forall₂ (fun l a => _parse_atom_line env l = .ok a) lines attrs) :
+    _parse_atom_block env lines = .ok (atomDict attrs) := by
+  unfold _parse_atom_block
+  simp only [Py.pure_eq_ok, pyIter_list]
+  have key : ∀ s : Int, listComp (enumerate lines s) (fun x => do
+        let __do_lift ← _parse_atom_line env x.2
+        Except.ok (some (x.1, __do_lift))) = .ok (enumerate attrs s) := by
+    induction h with
+    | nil => intro s; rfl
+    | cons hx _ ih =>
+      intro s
+      rw [enumerate_cons, enumerate_cons, listComp, hx, ih (s + 1)]
+      rfl
+  rw [key 0]
+  simp only [Py.ok_bind, ofPairs_eq _ (nodup_keys_enumerate attrs 0)]
+  rfl
+
+theorem _parse_bond_block_ok (env : DepEnv) (lines : List Str) (atoms : Dict Int Attrs)
+    (bonds : List ((Int × Int) × Attrs))
+    (h : List.Forall₂ (fun l b => _parse_bond_line env l atoms = .ok b) lines bonds) :
+    _parse_bond_block env lines atoms = .ok (Dict.ofPairs bonds) := by
+  unfold _parse_bond_block
+  simp only [Py.pure_eq_ok, pyIter_list]
+  have key : listComp lines (fun line => do
+        let __do_lift ← _parse_bond_line env line atoms
+        Except.ok (some __do_lift)) = .ok bonds := by
+    induction h with
+    | nil => rfl
+    | cons hx _ ih => rw [listComp, hx, ih]; rfl
+  rw [key]; rfl
+
+theorem slice_from {α : Type} (l : List α) (x : Int) (a : Nat) (hx : x = a) : slice l (some x) none = l.drop a := by
+  subst hx
+  unfold slice clampIndex
+  have h1 : ¬ ((a : Int) < 0) := by omega
+  simp only [h1, if_false, Int.toNat_natCast, List.take_length]
+  by_cases h : a ≤ l.length
+  · rw [Nat.min_eq_left h]
+  · rw [List.drop_eq_nil_of_le (by omega), List.drop_eq_nil_of_le (by omega)]
+
+
+/-- the blocks are cut out of the file as the counts line says (note: the property block is scanned from
+`lll` lines after the start of the bond block, i.e. the bond lines are scanned as well and must be
+"unrelated lines" for it) -/
+theorem graph_attributes_from_molfile_v2000_eq (env : DepEnv) (h0 h1 h2 counts : Str)
+    (atomLines bondLines rest : List Str) (nl : Nat)
+    (hna : fieldInt (field counts 0 3) = .ok atomLines.length)
+    (hnb : fieldInt (field counts 3 3) = .ok bondLines.length)
+    (hnl : fieldInt (field counts 6 3) = .ok nl) :
+    graph_attributes_from_molfile_v2000 env (h0 :: h1 :: h2 :: counts :: (atomLines ++ (bondLines ++ rest))) = (do
+      let atoms ← _parse_atom_block env atomLines
+      let bonds ← _parse_bond_block env bondLines atoms
+      let r ← _parse_attribute_block env ((bondLines ++ rest).drop nl) atoms
+      pure (r, bonds)) := by
+  unfold graph_attributes_from_molfile_v2000
+  have hg : (getItem (h0 :: h1 :: h2 :: counts :: (atomLines ++ (bondLines ++ rest))) (3 : Int) : M Str) = .ok counts := by
+    simp [getItem, listGet, normIndex]
+  simp only [Py.pure_eq_ok, _to_int_eq, pyAdd_int, hg, Py.ok_bind]
+  rw [slice_eq_field counts 0 3 0 3 rfl rfl, slice_eq_field counts 3 6 3 3 rfl rfl,
+    slice_eq_field counts 6 9 6 3 rfl rfl]
+  simp only [field] at hna hnb hnl
+  simp only [hna, hnb, hnl, Py.ok_bind]
+  rw [slice_eq_field _ 4 _ 4 atomLines.length rfl (by push_cast; ring),
+    slice_eq_field _ _ _ (4 + atomLines.length) bondLines.length (by push_cast; ring) (by push_cast; ring),
+    slice_from _ _ (4 + atomLines.length + nl) (by push_cast; ring)]
+  have e1 : List.take atomLines.length (List.drop 4 (h0 :: h1 :: h2 :: counts :: (atomLines ++ (bondLines ++ rest)))) =
+      atomLines := by simp
+  have e2 : List.take bondLines.length (List.drop (4 + atomLines.length)
+      (h0 :: h1 :: h2 :: counts :: (atomLines ++ (bondLines ++ rest)))) = bondLines := by
+    rw [show 4 + atomLines.length = atomLines.length + 4 by omega]
+    simp
+  have e3 : List.drop (4 + atomLines.length + nl) (h0 :: h1 :: h2 :: counts :: (atomLines ++ (bondLines ++ rest))) =
+      (bondLines ++ rest).drop nl := by
+    rw [show 4 + atomLines.length + nl = (atomLines.length + nl) + 4 by omega]
+    simp only [List.drop_succ_cons]
+    rw [← List.drop_drop, List.drop_left]
+  rw [e1, e2, e3]
+
+
+theorem mem_fmt3_nat (a : Nat) : ∀ c ∈ fmt3 (a : Int), c = ' ' ∨ c.isDigit = true := by
+  intro c hc
+  unfold fmt3 padLeft at hc
+  rw [pyStrInt_eq, if_pos (by omega), List.mem_append] at hc
+  rcases hc with hc | hc
+  · exact Or.inl (List.mem_replicate.1 hc).2
+  · exact Or.inr (Nat.isDigit_of_mem_toDigits (by decide) (by decide) hc)
+
+/-- a line that starts with a three-column number (a bond line, an atom-list line) is an unrelated line
+for the property block -/
+theorem lineKind_numberLine (a : Nat) (rest : Str) :
+    lineKind (fmt3 a ++ rest) = none ∧ fmt3 a ++ rest ≠ endLine := by
+  have hne : fmt3 (a : Int) ≠ [] := by
+    unfold fmt3 padLeft
+    simp [pyStrInt_ne_nil]
+  obtain ⟨c, cs, hcs⟩ := List.exists_cons_of_ne_nil hne
+  have hc : c ≠ 'M' := by
+    rcases mem_fmt3_nat a c (by rw [hcs]; simp) with h | h
+    · rw [h]; decide
+    · rintro rfl; exact absurd h (by decide)
+  have hc' : ¬ 'M' = c := fun e => hc e.symm
+  rw [hcs]
+  constructor
+  · simp [lineKind, Kind.tag, startswith, List.isPrefixOf, hc, hc']
+  · simp [endLine, hc]
+
+/-- **C08, whole connection table** (files without atom-list lines): header, counts line, atom block,
+bond block, property block up to `M  END`. The bonds are those of the bond block; the atoms are those of
+the atom block with the property block applied as `specGet` says. -/
+theorem graph_attributes_from_molfile_v2000_ok (env : DepEnv) (h0 h1 h2 counts : Str)
+    (atomLines bondLines : List Str) (attrs : List Attrs) (bonds : List ((Int × Int) × Attrs))
+    (items : List Item) (post : List Str)
+    (hna : fieldInt (field counts 0 3) = .ok atomLines.length)
+    (hnb : fieldInt (field counts 3 3) = .ok bondLines.length)
+    (hnl : fieldInt (field counts 6 3) = .ok 0)
+    (hatoms : List.Forall₂ (fun l a => _parse_atom_line env l = .ok a) atomLines attrs)
+    (hbonds : List.Forall₂ (fun l b => _parse_bond_line env l (atomDict attrs) = .ok b) bondLines bonds)
+    (hbl : ∀ l ∈ bondLines, lineKind l = none ∧ l ≠ endLine)
+    (hitems : ∀ it ∈ items, it.Legal (atomDict attrs)) :
+    ∃ r, graph_attributes_from_molfile_v2000 env
+        (h0 :: h1 :: h2 :: counts :: (atomLines ++ (bondLines ++ (items.map Item.render ++ endLine :: post)))) =
+        .ok (r, Dict.ofPairs bonds) ∧
+      r.keys = Py.range attrs.length ∧
+      ∀ (i : Nat) (hi : i < attrs.length), ∃ new, r.get? (i : Int) = some new ∧ (WF attrs[i] → WF new) ∧
+        ∀ k, new.get? k = specGet (items.filterMap Item.parsed) i attrs[i] k := by
+  have hit : ∀ it ∈ bondLines.map Item.other ++ items, it.Legal (atomDict attrs) := by
+    intro it hit
+    rcases List.mem_append.1 hit with h | h
+    · obtain ⟨l, hl, rfl⟩ := List.mem_map.1 h
+      exact hbl l hl
+    · exact hitems it h
+  have hr : (bondLines.map Item.other ++ items).map Item.render = bondLines ++ items.map Item.render := by
+    simp [List.map_append, List.map_map, Function.comp_def, Item.render]
+  have hp : (bondLines.map Item.other ++ items).filterMap Item.parsed = items.filterMap Item.parsed := by
+    rw [List.filterMap_append]
+    have : (bondLines.map Item.other).filterMap Item.parsed = [] := by
+      rw [List.filterMap_eq_nil_iff]; intro x hx
+      obtain ⟨l, _, rfl⟩ := List.mem_map.1 hx; rfl
+    rw [this, List.nil_append]
+  obtain ⟨r, hr1, hr2, hr3⟩ := _parse_attribute_block_render_ok env (atomDict attrs) (atomDict_wf attrs)
+    (bondLines.map Item.other ++ items) hit post
+  rw [hr, List.append_assoc] at hr1
+  rw [hp] at hr3
+  refine ⟨r, ?_, ?_, ?_⟩
+  · rw [graph_attributes_from_molfile_v2000_eq env h0 h1 h2 counts atomLines bondLines _ 0 hna hnb hnl,
+      _parse_atom_block_ok env atomLines attrs hatoms]
+    simp only [Py.ok_bind, _parse_bond_block_ok env bondLines _ bonds hbonds, List.drop_zero, hr1]
+    rfl
+  · rw [hr2, atomDict_keys]
+  · intro i hi
+    have : (atomDict attrs).get? (i : Int) = some attrs[i] := by
+      rw [atomDict_get?]; simp [hi]
+    exact hr3 i attrs[i] this
+
+/-! ### reading `specGet` -/
+
+/-- attributes other than `chg`, `rad`, `mass` (element symbol, atomic number, coordinates, partition)
+are never touched by the property block -/
+theorem specGet_other (pl : List (Kind × List (Int × Int))) (a : Int) (old : Attrs) (k : String)
+    (h1 : k ≠ "chg") (h2 : k ≠ "rad") (h3 : k ≠ "mass") : specGet pl a old k = old.get? k := by
+  simp [specGet, kindOfKey, h1, h2, h3]
+
+/-- isotope masses: a non-zero `M  ISO` entry for this very atom (the last one, if several) sets the mass;
+otherwise the mass from the atom block (D ↦ 2, T ↦ 3) stays — whatever CHG/RAD/ISO lines there are -/
+theorem specGet_mass (pl : List (Kind × List (Int × Int))) (a : Int) (old : Attrs) :
+    specGet pl a old "mass" =
+      match lastWins (entriesOf pl .iso) a with
+      | some v => if v = 0 then old.get? "mass" else some (Val.int v)
+      | none => old.get? "mass" := by
+  simp [specGet, kindOfKey]
+  all_goals (cases lastWins (entriesOf pl .iso) a <;> rfl)
+
+theorem specGet_mass_kept (pl : List (Kind × List (Int × Int))) (a : Int) (old : Attrs)
+    (h : ∀ v, lastWins (entriesOf pl .iso) a = some v → v = 0) :
+    specGet pl a old "mass" = old.get? "mass" := by
+  rw [specGet_mass]
+  cases hl : lastWins (entriesOf pl .iso) a with
+  | none => rfl
+  | some v => simp [h v hl]
+
+/-- charges: with any CHG or RAD line in the block the atom-block charge is discarded -/
+theorem specGet_chg (pl : List (Kind × List (Int × Int))) (a : Int) (old : Attrs) :
+    specGet pl a old "chg" =
+      match lastWins (entriesOf pl .chg) a with
+      | some v => if v = 0 then (if supersedes pl then none else old.get? "chg") else some (Val.int v)
+      | none => if supersedes pl then none else old.get? "chg" := by
+  simp [specGet, kindOfKey]
+  all_goals (cases lastWins (entriesOf pl .chg) a <;> rfl)
+
+theorem specGet_rad (pl : List (Kind × List (Int × Int))) (a : Int) (old : Attrs) :
+    specGet pl a old "rad" =
+      match lastWins (entriesOf pl .rad) a with
+      | some v => if v = 0 then (if supersedes pl then none else old.get? "rad") else some (Val.int v)
+      | none => if supersedes pl then none else old.get? "rad" := by
+  simp [specGet, kindOfKey]
+  all_goals (cases lastWins (entriesOf pl .rad) a <;> rfl)
+
+/-- no property lines: nothing changes -/
+theorem specGet_nil (a : Int) (old : Attrs) (k : String) : specGet [] a old k = old.get? k := by
+  unfold specGet
+  cases kindOfKey k <;> simp [supersedes, entriesOf, lastWins_nil]
+
+theorem hydrogenIsotope_D : hydrogenIsotope py!"D" = (py!"H", 2) := by decide
+theorem hydrogenIsotope_T : hydrogenIsotope py!"T" = (py!"H", 3) := by decide
+theorem hydrogenIsotope_other (s : Str) (h1 : s ≠ py!"D") (h2 : s ≠ py!"T") : hydrogenIsotope s = (s, 0) := by
+  simp [hydrogenIsotope, h1, h2]
+
 end Contracts.V2000
+
+#print axioms Contracts.V2000._to_int_ok
+#print axioms Contracts.V2000._parse_atom_value_assignments_eq
+#print axioms Contracts.V2000._parse_atom_value_assignments_ok
+#print axioms Contracts.V2000._merge_tuples_into_additional_attributes_eq
+#print axioms Contracts.V2000._clear_atom_attribute_ok
+#print axioms Contracts.V2000._merge_atom_attributes_and_additional_attributes_eq
+#print axioms Contracts.V2000._parse_attribute_block_eq
+#print axioms Contracts.V2000._parse_attribute_block_ok
+#print axioms Contracts.V2000._parse_attribute_block_render_ok
+#print axioms Contracts.V2000._parse_attribute_block_render_noEnd
+#print axioms Contracts.V2000._parse_attribute_block_render_badAtom
+#print axioms Contracts.V2000._parse_atom_line_ok
+#print axioms Contracts.V2000._parse_bond_line_ok
+#print axioms Contracts.V2000.graph_attributes_from_molfile_v2000_ok
